@@ -180,10 +180,11 @@ var plans = []Plan{
 	},
 	{
 		ID: "C07", Level: "exploration",
-		Rule: "state machine with short generated lifetimes (code, access, refresh incl. -1, device, PAR) and time advances drawn from seconds..days and from just before / just past the next expiry known to the model; every credential is presented at its endpoint and introspected on both sides of the expiry advertised in the response. Non-trivial: a credential refused or reported inactive because it expired inside the history. Second job (lifespans): generated server defaults (access / refresh incl. -1 / ID token) x per-client overrides set independently for each of the 12 (grant, token type) pairs with pairwise distinct values x flow (code, implicit, client credentials, password, JWT bearer, device, followed by refresh): expires_in, introspected exp and the ID token exp must equal override-else-default for exactly that pair, and the newest access and refresh token are introspected 4 s before and 4 s after the advertised instant (unlimited refresh tokens after 400 days); non-trivial there: at least one override in force and a token issued.",
+		Rule: "state machine with short generated lifetimes (code, access, refresh incl. -1, device, PAR) and time advances drawn from seconds..days and from just before / just past the next expiry known to the model; every credential is presented at its endpoint and introspected on both sides of the expiry advertised in the response. Non-trivial: a credential refused or reported inactive because it expired inside the history. Second job (lifespans): generated server defaults (access / refresh incl. -1 / ID token) x per-client overrides set independently for each of the 12 (grant, token type) pairs with pairwise distinct values x flow (code, implicit, client credentials, password, JWT bearer, device, followed by refresh): expires_in, introspected exp and the ID token exp must equal override-else-default for exactly that pair, and the newest access and refresh token are introspected 4 s before and 4 s after the advertised instant (unlimited refresh tokens after 400 days); non-trivial there: at least one override in force and a token issued. Third job: client assertions and JWT-bearer assertions with lifetimes of 5 s .. 1 h presented at -3, +3, +10 .. +86400 s relative to their exp (fresh jti each time): accepted before, refused after.",
 		Jobs: []Job{
 			{Test: "TestC07_ExpiryHistories", Shards: [2]int{12, 16}, Checks: [2]int{250, 4000}, Steps: [2]int{35, 70}, Timeout: [2]int{600, 3000}},
 			{Test: "TestC07_Lifespans", Shards: [2]int{6, 12}, Checks: [2]int{400, 10000}, Timeout: [2]int{600, 3000}},
+			{Test: "TestC07_AssertionExpiry", Shards: [2]int{2, 4}, Checks: [2]int{400, 10000}, Timeout: [2]int{600, 3000}},
 		},
 	},
 
